@@ -70,11 +70,36 @@ CLAIMS = {
    "deterministic simulation: bursts of client goroutines on query runners sharing one semaphore, seeded scheduler + fake clock (semaphore time-outs), failures after slot acquisition and cancellations injected; history oracle over scheduler steps",
    "K in 1..3 slots, K+1..3K+2 clients issue 1-2 queries each at drawn simulated instants; a call succeeds, fails with an I/O error on the interface listing (after the slot was taken) or is cancelled at a drawn operation; the scheduler interleaves at every file-system operation and advances the fake clock so TryAddFor time-outs expire. Checked: executing <= K at every step, 'too many requests' only if all K slots were held throughout the waiting window, no slot held after quiescence, K fresh queries succeed, every caller returns.",
    "Engine variant only so far (the distributed runner shares the same semaphore logic and is added with dist-sim). Each client uses its own QueryRunner on the shared semaphore."),
+ "C20": ("capture-sim", "exploration", "7.20",
+   "deterministic simulation: real capture manager with simulated packet sources, fake clock (testing/synctest), simulated disk and a seeded scheduler at every seam; class-wise conservation oracle (orientation-tolerant) over all written blocks plus in-memory flows",
+   "One interface, 1-6 generated conversations (both IP versions, TCP/UDP/ICMP/ESP/GRE, both directions, common and ephemeral ports, fragments, truncated headers, non-IP frames) delivered in bursts at drawn simulated instants (some exactly on rotation ticks) while the real rotation ticker, status calls and live snapshots run; the scheduler interleaves packet delivery, the capture loop, lock/unlock, rotation and write-out. Oracle: per class of conversations sharing candidate stored keys the four counters summed over all blocks (read back through the real reader) plus the in-memory flows equal the parsed packets; every record key is a candidate key of a delivered conversation (no source port, right family); no empty record; no conversation in two records of one block.",
+   "Orientation of non-decisive conversations is not predicted (that is C22). The Processed/ParsingErrors counter equation is not checked."),
+ "C21": ("capture-sim", "exploration", "7.21",
+   "deterministic simulation: as C20 with small local-buffer limits and large bursts so that packets arrive before the lock request, between request and confirmation, inside the pause window and around the unlock; loss accepted only up to the number of reported local buffer overflows",
+   "The C20 scenario with the local buffer limit drawn from {4096, 4097, 4100, 6000, 8192, 12288, 100000, 64 MiB} and bursts of 150-750 packets: pause windows of write-outs, status calls and live snapshots contain IPv4 and IPv6 packets (probes: packets in window, IPv6 in window, buffer grown, overflow). Class-wise conservation must hold exactly unless 'local packet buffer overflow' was logged, in which case at most that many packets may be missing.",
+   "With an overflow the lost packets are checked by count and per-class upper bounds, not attributed individually. Non-IP frames are excluded."),
+ "C22": ("capture-sim", "exploration", "7.22",
+   "deterministic simulation, metamorphic over arrival order: the same conversation delivered to two interfaces of one real capture manager, request first on one, response first on the other; stored orientation compared",
+   "Conversations of five kinds (TCP handshake incl. ECN flag variants, ICMP echo, ICMP timestamp, ICMPv6 echo, TCP/UDP without handshake flags with ports drawn at the class boundaries) are delivered in both arrival orders, followed by further packets; whenever the documented heuristics are decisive for both first packets the stored (sip,dip) must be equal in both orders and run from requester to responder; in every case the conversation must end up in one record.",
+   "Ports are sampled at class boundaries (19 values), not the exhaustive 2^32 pairs the property mentions."),
+ "C23": ("capture-sim", "exploration", "7.23",
+   "deterministic simulation: the local packet buffer exercised in situ by the C21 scenario (adds while paused, drain-all, reset) with the size limit as a randomised knob; field preservation via class-wise conservation, refusal legitimacy via per-cycle byte accounting at the source seam",
+   "Pause-window length (schedule) and size limit (knob) determine the add/grow/refuse/drain sequence. Drained items must reproduce key, IP version, direction, TCP flags / ICMP type, parse status and size (observable through orientation, direction counters and sizes in the flow log: class-wise conservation), and every reported overflow needs a lock cycle whose packets occupy at least the limit (an insert may be refused only when the buffer has reached its size limit).",
+   "Only the production call pattern is explored; arbitrary API sequences on a bare buffer are input-space testing and not claimed."),
+ "C27": ("capture-sim", "exploration", "7.27",
+   "deterministic simulation: histories of configuration updates over a small interface universe (guarded host-link hook) with traffic and clock steps (0 s, 0.4 s, 2 s, 299 s, 301 s) in between; selection model compared with running captures and their settings (guarded accessor); conservation per interface at the end",
+   "2-6 updates (explicit names, explicit disables, overlapping regular expressions with different settings, auto-detection with excludes, changes of every CaptureConfig field) with packets on every running interface and a clock step before each update, then shutdown. After each update: running captures = selected interfaces, settings = those the configuration assigns (ambiguous selections are re-applied 16 times and must not change); at the end everything read from any interface must be in the database; a logged 'failed to perform writeout' is a violation.",
+   "Which of two overlapping patterns wins is not demanded. Runs depend on Go map iteration order inside goProbe (enable/disable lists), so replay and minimisation steps are retried (RuntimeRandom)."),
+ "C29": ("capture-sim", "exploration", "7.29",
+   "deterministic simulation: real engine live queries (WithLiveData) against the running capture manager, bracketed by direct snapshots of the in-memory flows; reference aggregation over stored plus in-memory flows; paired run without live queries",
+   "After each packet batch (before and after rotations) a generated live query (attribute subsets, condition trees, direction filters) runs through engine.QueryRunner with live data; two direct snapshots taken before and after it fix the in-memory flows at its linearisation point; rows must equal the reference aggregation over stored records plus in-memory flows. The same scenario is then run without live queries and the final database contents must be equal.",
+   "Live queries are generated without the time label. A live query overlapping a rotation is skipped. Conditions with address literals of one family are excluded (C08 finding)."),
 }
 
 ENGINES = {
  "store-sim": ("harness/store", "real gpfile/DBWriter/reader/listing/query/CSV-import code over the simulated disk; seeded histories of write sessions, restarts, kills, torn writes and I/O errors"),
  "merge-sim": ("harness/merge", "real MergeDatabases over a read-only source disk and a destination disk; generated database pairs; kills at every structural operation"),
+ "capture-sim": ("harness/capture", "real capture manager (three-point lock, packet loop, local buffer, flow log, rotation goroutine, write-out handler, DB writer, live-query path) with simulated packet sources, fake clock, simulated disk and a seeded scheduler at every seam (source calls, mutexes via simsync, file-system operations)"),
  "query-sim": ("harness/query", "real query engine over databases written by the real writer; worker count, memory mode, goroutine schedule (seeded scheduler in a synctest bubble), reader/writer interleaving, stored-byte damage and semaphore time-outs decided by the simulator"),
 }
 
